@@ -1,6 +1,7 @@
 import Proofs.C16Merge
 import Proofs.C16Nodup
 import Proofs.C16Box
+import Proofs.ChipBorderLemmas
 import Mathlib.Tactic.NormNum
 import Mathlib.Algebra.Order.Field.Rat
 
@@ -521,5 +522,448 @@ theorem boxTol_spec (d2r ftol : ℝ) :
 example : ((0 : ℝ), (0 : ℝ)) ≠ (3, 4) := by
   intro h; have := congrArg Prod.fst h; norm_num at this
 example : (0 : ℝ) < boxTol (355 / 113 / 180) 1 := (boxTol_spec _ _).2 (by norm_num) one_pos
+
+end TW.C16
+
+/-!
+### the whole-image ("chip") footprint: `WCSImageCatalog._calc_chip_bounding_polygon`
+
+The footprint of an image catalog with fewer than three (or only collinear) sources.  The model
+(`Model/ChipBorder.lean`, namespace `TW.Chip`) is the method up to the call of `det_to_world`:
+`chipRect` (bounding box shrunk by half a pixel, or — no bounding box — `[-1/2, upperEdge(max x)] ×
+[-1/2, upperEdge(max y)]` with `upperEdge m = max(1, ⌊m + 1/2⌋ + 1) − 1/2`), `nint` (3 intervals, or
+`max(2, ⌈(hi − lo)/stepsize⌉)`), `linspace` (as `numpy.linspace` evaluates it, end point exact),
+`chipBorder` (the lists `borderx`, `bordery` zipped) and `chipPolygon` (the whole).  `K` is any linearly
+ordered field with a floor; rounding, the sky map and the spherical polygon are outside the model.
+
+Vocabulary: `shoelace2 l` = `Σ (x_i y_{i+1} − x_{i+1} y_i)` over consecutive pairs (twice the signed area
+of a closed vertex list, positive = counter-clockwise), `signedArea l = shoelace2 l / 2`; `AllLeft q l` —
+`q` is on or to the left of every edge of `l` (for a convex counter-clockwise polygon: `q` is in the
+closed region bounded by `l`).
+-/
+namespace TW.C16
+open TW.Chip
+section chip
+variable {K : Type} [Field K] [LinearOrder K] [IsStrictOrderedRing K] [FloorRing K]
+
+/-! #### (a) no bounding box: the rectangle from the catalog -/
+
+/-- for every non-empty catalog the rectangle exists, starts at the pixel edge `-1/2`, its upper edges
+are strictly above **every** source, at most one pixel above the largest coordinate (or at the edge `1/2`
+of the first pixel), and it spans whole pixels (at least one) -/
+theorem chip_nobb_rect (cat : List (K × K)) (hne : cat ≠ []) :
+    ∃ r, chipRect none cat = .ok r ∧ r.lx = -(1 / 2) ∧ r.ly = -(1 / 2) ∧
+      (∀ p ∈ cat, p.1 < r.hx ∧ p.2 < r.hy) ∧
+      (∃ p ∈ cat, r.hx ≤ max (1 / 2) (p.1 + 1)) ∧ (∃ p ∈ cat, r.hy ≤ max (1 / 2) (p.2 + 1)) ∧
+      (∃ nx ny : ℕ, 1 ≤ nx ∧ 1 ≤ ny ∧ r.hx - r.lx = (nx : K) ∧ r.hy - r.ly = (ny : K)) := by
+  have hx : cat.map (fun p => p.1) ≠ [] := by simpa using hne
+  have hy : cat.map (fun p => p.2) ≠ [] := by simpa using hne
+  rcases amax_spec (cat.map fun p => p.1) with ⟨e, _⟩ | ⟨mx, hmx, hmemx, hbx⟩
+  · exact absurd e hx
+  rcases amax_spec (cat.map fun p => p.2) with ⟨e, _⟩ | ⟨my, hmy, hmemy, hby⟩
+  · exact absurd e hy
+  refine ⟨⟨-halfK, upperEdge mx, -halfK, upperEdge my⟩, ?_, ?_, ?_, ?_, ?_, ?_, ?_⟩
+  · show rectNoBB cat = _
+    unfold rectNoBB
+    rw [hmx, hmy]
+  · simp [TW.Hist.halfK_eq]
+  · simp [TW.Hist.halfK_eq]
+  · intro p hp
+    exact ⟨lt_of_le_of_lt (hbx p.1 (List.mem_map.mpr ⟨p, hp, rfl⟩)) (lt_upperEdge mx),
+      lt_of_le_of_lt (hby p.2 (List.mem_map.mpr ⟨p, hp, rfl⟩)) (lt_upperEdge my)⟩
+  · obtain ⟨p, hp, e⟩ := List.mem_map.mp hmemx
+    exact ⟨p, hp, by rw [e]; exact upperEdge_le mx⟩
+  · obtain ⟨p, hp, e⟩ := List.mem_map.mp hmemy
+    exact ⟨p, hp, by rw [e]; exact upperEdge_le my⟩
+  · obtain ⟨nx, hnx, ex⟩ := upperEdge_nat mx
+    obtain ⟨ny, hny, ey⟩ := upperEdge_nat my
+    refine ⟨nx, ny, hnx, hny, ?_, ?_⟩
+    · simp only [TW.Hist.halfK_eq]; rw [← ex]; ring
+    · simp only [TW.Hist.halfK_eq]; rw [← ey]; ring
+
+/-- **containment**: every source with pixel coordinates `≥ -1/2` (every pixel of a detector whose first
+pixel is centred on 0) lies in the rectangle, strictly below its upper edges -/
+theorem chip_nobb_contains (cat : List (K × K)) (r : Rect K) (h : chipRect none cat = .ok r) :
+    ∀ p ∈ cat, -(1 / 2) ≤ p.1 → -(1 / 2) ≤ p.2 → r.lx ≤ p.1 ∧ p.1 < r.hx ∧ r.ly ≤ p.2 ∧ p.2 < r.hy := by
+  intro p hp h1 h2
+  have hne : cat ≠ [] := List.ne_nil_of_mem hp
+  obtain ⟨r', hr', elx, ely, hlt, _⟩ := chip_nobb_rect cat hne
+  rw [h] at hr'
+  injection hr' with hr'
+  subst hr'
+  exact ⟨by rw [elx]; exact h1, (hlt p hp).1, by rw [ely]; exact h2, (hlt p hp).2⟩
+
+/-- the excluded inputs really are outside: a source with a coordinate below `-1/2` is below the lower
+edge of the rectangle (which never moves) -/
+theorem chip_nobb_excluded (cat : List (K × K)) (r : Rect K) (h : chipRect none cat = .ok r) :
+    ∀ p ∈ cat, (p.1 < -(1 / 2) → p.1 < r.lx) ∧ (p.2 < -(1 / 2) → p.2 < r.ly) := by
+  intro p hp
+  obtain ⟨r', hr', elx, ely, _⟩ := chip_nobb_rect cat (List.ne_nil_of_mem hp)
+  rw [h] at hr'
+  injection hr' with hr'
+  subst hr'
+  exact ⟨fun h1 => by rw [elx]; exact h1, fun h2 => by rw [ely]; exact h2⟩
+
+/-- the rectangle fails to exist only for an empty catalog on a corrector without bounding box -/
+theorem chip_rect_error (bbox : Option (Rect K)) (cat : List (K × K)) (e : ChipErr) :
+    chipRect bbox cat = .error e ↔ (bbox = none ∧ cat = [] ∧ e = .emptyCatalog) := by
+  cases bbox with
+  | some b => simp [chipRect]
+  | none =>
+    constructor
+    · intro h
+      by_cases hne : cat = []
+      · subst hne
+        have : chipRect (K := K) none [] = .error .emptyCatalog := rfl
+        rw [this] at h
+        injection h with h
+        exact ⟨rfl, rfl, h.symm⟩
+      · obtain ⟨r, hr, _⟩ := chip_nobb_rect cat hne
+        rw [hr] at h; cases h
+    · rintro ⟨_, rfl, rfl⟩; rfl
+
+/-! #### (b) bounding box: shrunk by half a pixel -/
+
+/-- the rectangle is the box minus half a pixel on every side; it is non-degenerate exactly when the box
+is wider (taller) than one pixel -/
+theorem chip_bb_rect (b : Rect K) (cat : List (K × K)) :
+    ∃ r, chipRect (some b) cat = .ok r ∧
+      r.lx = b.lx + 1 / 2 ∧ r.hx = b.hx - 1 / 2 ∧ r.ly = b.ly + 1 / 2 ∧ r.hy = b.hy - 1 / 2 ∧
+      r.hx - r.lx = (b.hx - b.lx) - 1 ∧ r.hy - r.ly = (b.hy - b.ly) - 1 ∧
+      (r.lx < r.hx ↔ 1 < b.hx - b.lx) ∧ (r.ly < r.hy ↔ 1 < b.hy - b.ly) := by
+  refine ⟨rectBB b, rfl, ?_, ?_, ?_, ?_, ?_, ?_, ?_, ?_⟩ <;> simp only [rectBB, TW.Hist.halfK_eq]
+  · ring
+  · ring
+  · constructor <;> intro h <;> linarith
+  · constructor <;> intro h <;> linarith
+
+/-- consequence (recorded, see the harness probe): a pixel position in the outer half-pixel band of the
+box — inside the image, beyond the centre of its last (before the centre of its first) pixel — is
+outside the rectangle -/
+theorem chip_bb_outer_band (b : Rect K) (cat : List (K × K)) (r : Rect K)
+    (h : chipRect (some b) cat = .ok r) (x y : K) :
+    (b.hx - 1 / 2 < x → r.hx < x) ∧ (x < b.lx + 1 / 2 → x < r.lx) ∧
+    (b.hy - 1 / 2 < y → r.hy < y) ∧ (y < b.ly + 1 / 2 → y < r.ly) := by
+  obtain ⟨r', hr', e1, e2, e3, e4, _⟩ := chip_bb_rect b cat
+  rw [h] at hr'
+  injection hr' with hr'
+  subst hr'
+  rw [e1, e2, e3, e4]
+  exact ⟨id, id, id, id⟩
+
+/-! #### (d) the numbers of intervals -/
+
+/-- at least two intervals; three without `stepsize`; with a positive `stepsize` no interval is longer
+than it and the count is the least such (above the minimum 2); a negative `stepsize` gives the minimum -/
+theorem nint_spec (step : Option K) (lo hi : K) (n : ℕ) (h : nint step lo hi = .ok n) :
+    2 ≤ n ∧ (step = none → n = 3) ∧
+    (∀ s, step = some s → 0 < s → (hi - lo) / (n : K) ≤ s ∧ (2 < n → s < (hi - lo) / ((n : K) - 1))) ∧
+    (∀ s, step = some s → s < 0 → lo ≤ hi → n = 2) := by
+  rcases nint_cases step lo hi with ⟨e, h'⟩ | ⟨e, h'⟩ | ⟨s, hs, e, h'⟩
+  · rw [h'] at h; injection h with h; subst h
+    refine ⟨by norm_num, fun _ => rfl, ?_, ?_⟩ <;> intro s hs' <;> rw [e] at hs' <;> cases hs'
+  · rw [h'] at h; cases h
+  · rw [h'] at h; injection h with h; subst h
+    refine ⟨two_le_nintStep lo hi s, (fun h0 => by rw [e] at h0; cases h0), ?_, ?_⟩
+    · intro s' hs' hpos
+      rw [e] at hs'; injection hs' with hs'; subst hs'
+      exact ⟨nintStep_le lo hi s hpos, nintStep_minimal lo hi s hpos⟩
+    · intro s' hs' hneg hle
+      rw [e] at hs'; injection hs' with hs'; subst hs'
+      have hc := nintStep_cast lo hi s
+      have : ⌈(hi - lo) / s⌉ ≤ 0 := by
+        rw [Int.ceil_le]
+        push_cast
+        exact div_nonpos_of_nonneg_of_nonpos (by linarith) (le_of_lt hneg)
+      rw [max_eq_left (by omega)] at hc
+      omega
+
+/-- the only failure is a zero `stepsize` -/
+theorem nint_error (step : Option K) (lo hi : K) (e : ChipErr) :
+    nint step lo hi = .error e ↔ (step = some 0 ∧ e = .zeroStep) := by
+  rcases nint_cases step lo hi with ⟨e', h'⟩ | ⟨e', h'⟩ | ⟨s, hs, e', h'⟩
+  · rw [h', e']; simp
+  · rw [h', e']
+    constructor
+    · intro h; injection h with h; exact ⟨rfl, h.symm⟩
+    · rintro ⟨_, rfl⟩; rfl
+  · rw [h', e']
+    constructor
+    · intro h; cases h
+    · rintro ⟨h0, _⟩; injection h0 with h0; exact absurd h0 hs
+
+/-! #### (e) `numpy.linspace` -/
+
+/-- `n + 1` samples; for `n ≥ 1` intervals the first is `lo`, the last is **exactly** `hi`, and sample `i`
+is `lo + i (hi − lo)/n`; one sample (`n = 0`) is `lo` -/
+theorem linspace_spec (lo hi : K) (n : ℕ) :
+    (linspace lo hi n).length = n + 1 ∧ linspace lo hi 0 = [lo] ∧
+    (n ≠ 0 → (linspace lo hi n).head? = some lo ∧ (linspace lo hi n).getLast? = some hi ∧
+      ∀ i ≤ n, (linspace lo hi n)[i]? = some (lo + (i : K) * ((hi - lo) / (n : K)))) := by
+  refine ⟨linspace_length lo hi n, by simp [linspace], fun hn => ⟨?_, ?_, ?_⟩⟩
+  · rw [linspace_decomp lo hi n hn]; rfl
+  · rw [linspace_decomp lo hi n hn, List.getLast?_concat]
+  · intro i hi'
+    exact linspace_getElem? lo hi n i hn hi'
+
+/-- consecutive samples are `(hi − lo)/n` apart -/
+theorem linspace_spacing (lo hi : K) (n i : ℕ) (hi' : i < n) :
+    ∃ a b, (linspace lo hi n)[i]? = some a ∧ (linspace lo hi n)[i + 1]? = some b ∧
+      b - a = (hi - lo) / (n : K) := by
+  have hn : n ≠ 0 := by omega
+  refine ⟨_, _, linspace_getElem? lo hi n i hn (by omega), linspace_getElem? lo hi n (i + 1) hn (by omega), ?_⟩
+  push_cast
+  ring
+
+/-- strictly increasing for `lo < hi`; in any case between the end points -/
+theorem linspace_monotone (lo hi : K) (n : ℕ) (hn : n ≠ 0) :
+    (lo < hi → (linspace lo hi n).Pairwise (· < ·)) ∧
+    ∀ v ∈ linspace lo hi n, min lo hi ≤ v ∧ v ≤ max lo hi :=
+  ⟨linspace_sorted lo hi n hn, linspace_between lo hi n hn⟩
+
+/-! #### (c) the border walk -/
+
+/-- `2 (nintx + 1) + 2 (ninty − 1) + 1` points (all counts) -/
+theorem border_length (r : Rect K) (nx ny : ℕ) :
+    (chipBorder r nx ny).length = 2 * (nx + 1) + 2 * (ny - 1) + 1 := by
+  rw [chipBorder_edges]
+  simp only [List.length_append, List.length_map, List.length_reverse, linspace_length, interior_length,
+    List.length_take]
+  omega
+
+/-- closed: the last point is the first one, `(lx, ly)` -/
+theorem border_closed (r : Rect K) (nx ny : ℕ) (hn : nx ≠ 0) :
+    (chipBorder r nx ny).head? = some (r.lx, r.ly) ∧ (chipBorder r nx ny).getLast? = some (r.lx, r.ly) := by
+  rw [chipBorder_eq_rectWalk r nx ny hn]
+  exact ⟨rectWalk_head _ _ _ _ _ _, rectWalk_getLast _ _ _ _ _ _⟩
+
+/-- every point of the border lies ON the boundary of the rectangle and inside its closed extent
+(whatever the order of the edges of a degenerate or inverted rectangle) -/
+theorem border_on_boundary (r : Rect K) (nx ny : ℕ) (hn : nx ≠ 0) : ∀ p ∈ chipBorder r nx ny,
+    (p.1 = r.lx ∨ p.1 = r.hx ∨ p.2 = r.ly ∨ p.2 = r.hy) ∧
+    min r.lx r.hx ≤ p.1 ∧ p.1 ≤ max r.lx r.hx ∧ min r.ly r.hy ≤ p.2 ∧ p.2 ≤ max r.ly r.hy := by
+  intro p hp
+  rw [chipBorder_eq_rectWalk r nx ny hn] at hp
+  have bx := interior_between r.lx r.hx nx
+  have by' := interior_between r.ly r.hy ny
+  have l1 : min r.lx r.hx ≤ r.lx ∧ r.lx ≤ max r.lx r.hx := ⟨min_le_left _ _, le_max_left _ _⟩
+  have l2 : min r.lx r.hx ≤ r.hx ∧ r.hx ≤ max r.lx r.hx := ⟨min_le_right _ _, le_max_right _ _⟩
+  have l3 : min r.ly r.hy ≤ r.ly ∧ r.ly ≤ max r.ly r.hy := ⟨min_le_left _ _, le_max_left _ _⟩
+  have l4 : min r.ly r.hy ≤ r.hy ∧ r.hy ≤ max r.ly r.hy := ⟨min_le_right _ _, le_max_right _ _⟩
+  rcases mem_rectWalk _ _ _ _ _ _ p hp with ⟨e, h⟩ | ⟨e, h⟩ | ⟨e, h⟩ | ⟨e, h⟩
+  · refine ⟨Or.inr (Or.inr (Or.inl e)), ?_, ?_, by rw [e]; exact l3.1, by rw [e]; exact l3.2⟩ <;>
+      rcases h with h | h | h
+    · rw [h]; exact l1.1
+    · rw [h]; exact l2.1
+    · exact (bx _ h).1
+    · rw [h]; exact l1.2
+    · rw [h]; exact l2.2
+    · exact (bx _ h).2
+  · refine ⟨Or.inr (Or.inl e), by rw [e]; exact l2.1, by rw [e]; exact l2.2, ?_, ?_⟩ <;> rcases h with h | h
+    · rw [h]; exact l4.1
+    · exact (by' _ h).1
+    · rw [h]; exact l4.2
+    · exact (by' _ h).2
+  · refine ⟨Or.inr (Or.inr (Or.inr e)), ?_, ?_, by rw [e]; exact l4.1, by rw [e]; exact l4.2⟩ <;>
+      rcases h with h | h
+    · rw [h]; exact l1.1
+    · exact (bx _ h).1
+    · rw [h]; exact l1.2
+    · exact (bx _ h).2
+  · exact ⟨Or.inl e, by rw [e]; exact l1.1, by rw [e]; exact l1.2, (by' _ h).1, (by' _ h).2⟩
+
+/-- the four corners occur, in the order bottom-left, bottom-right, top-right, top-left, and the walk
+returns to the first -/
+theorem border_corners (r : Rect K) (nx ny : ℕ) (hn : nx ≠ 0) :
+    List.Sublist [(r.lx, r.ly), (r.hx, r.ly), (r.hx, r.hy), (r.lx, r.hy), (r.lx, r.ly)]
+      (chipBorder r nx ny) := by
+  rw [chipBorder_eq_rectWalk r nx ny hn]
+  exact corners_sublist _ _ _ _ _ _
+
+/-- consecutive points are distinct when the rectangle is non-degenerate -/
+theorem border_consecutive_distinct (r : Rect K) (nx ny : ℕ) (hn : nx ≠ 0) (hx : r.lx < r.hx)
+    (hy : r.ly < r.hy) (i : ℕ) (hi : i + 1 < (chipBorder r nx ny).length) :
+    (chipBorder r nx ny)[i] ≠ (chipBorder r nx ny)[i + 1] := by
+  have key : List.IsChain (· ≠ ·) (chipBorder r nx ny) := by
+    rw [chipBorder_eq_rectWalk r nx ny hn, isChain_rectWalk]
+    have sx := (interior_sorted r.lx r.hx nx hx).isChain
+    have sy := (interior_sorted r.ly r.hy ny hy).isChain
+    refine ⟨?_, ?_, ?_, ?_⟩
+    · rw [List.isChain_map]
+      exact sx.imp fun a b hab he => absurd (congrArg Prod.fst he) (ne_of_lt hab)
+    · rw [List.isChain_map]
+      exact sy.imp fun a b hab he => absurd (congrArg Prod.snd he) (ne_of_lt hab)
+    · rw [List.isChain_map, List.isChain_reverse]
+      exact sx.imp fun a b hab he => absurd (congrArg Prod.fst he) (ne_of_gt hab)
+    · rw [List.isChain_map, List.isChain_reverse]
+      exact sy.imp fun a b hab he => absurd (congrArg Prod.snd he) (ne_of_gt hab)
+  exact List.isChain_iff_getElem.mp key i hi
+
+/-- **counter-clockwise**: the signed shoelace area of the border polygon is `+(hx − lx)(hy − ly)` —
+for every rectangle and all interval counts -/
+theorem border_ccw (r : Rect K) (nx ny : ℕ) (hn : nx ≠ 0) :
+    shoelace2 (chipBorder r nx ny) = 2 * ((r.hx - r.lx) * (r.hy - r.ly)) ∧
+    signedArea (chipBorder r nx ny) = (r.hx - r.lx) * (r.hy - r.ly) := by
+  have h := shoelace2_rectWalk r.lx r.hx r.ly r.hy (interior (linspace r.lx r.hx nx))
+    (interior (linspace r.ly r.hy ny))
+  rw [← chipBorder_eq_rectWalk r nx ny hn] at h
+  refine ⟨h, ?_⟩
+  unfold signedArea
+  rw [h]; ring
+
+/-- the region bounded by the border polygon (the points on or to the left of all of its edges) is
+exactly the rectangle: every point of the rectangle is inside the polygon and nothing else is -/
+theorem border_region (r : Rect K) (nx ny : ℕ) (hn : nx ≠ 0) (hx : r.lx < r.hx) (hy : r.ly < r.hy)
+    (q : Pt K) :
+    AllLeft q (chipBorder r nx ny) ↔ (r.lx ≤ q.1 ∧ q.1 ≤ r.hx ∧ r.ly ≤ q.2 ∧ q.2 ≤ r.hy) := by
+  rw [allLeft_iff_isChain, chipBorder_eq_rectWalk r nx ny hn, isChain_rectWalk]
+  have sx := (interior_sorted r.lx r.hx nx hx).isChain
+  have sy := (interior_sorted r.ly r.hy ny hy).isChain
+  have sx' : List.IsChain (· > ·) (r.lx :: interior (linspace r.lx r.hx nx) ++ [r.hx]).reverse :=
+    List.isChain_reverse.mpr sx
+  have sy' : List.IsChain (· > ·) (r.ly :: interior (linspace r.ly r.hy ny) ++ [r.hy]).reverse :=
+    List.isChain_reverse.mpr sy
+  have lenx : 2 ≤ (r.lx :: interior (linspace r.lx r.hx nx) ++ [r.hx]).length := by simp
+  have leny : 2 ≤ (r.ly :: interior (linspace r.ly r.hy ny) ++ [r.hy]).length := by simp
+  have lenx' : 2 ≤ (r.lx :: interior (linspace r.lx r.hx nx) ++ [r.hx]).reverse.length := by simp
+  have leny' : 2 ≤ (r.ly :: interior (linspace r.ly r.hy ny) ++ [r.hy]).reverse.length := by simp
+  rw [List.isChain_map, List.isChain_map, List.isChain_map, List.isChain_map]
+  rw [chain_const_iff (φ := r.ly ≤ q.2) ?_ _ sx lenx, chain_const_iff (φ := q.1 ≤ r.hx) ?_ _ sy leny,
+    chain_const_iff (φ := q.2 ≤ r.hy) ?_ _ sx' lenx', chain_const_iff (φ := r.lx ≤ q.1) ?_ _ sy' leny']
+  · tauto
+  · intro a b hab
+    simp only [cross]
+    constructor
+    · intro h; nlinarith
+    · intro h; nlinarith
+  · intro a b hab
+    simp only [cross]
+    constructor
+    · intro h; nlinarith
+    · intro h; nlinarith
+  · intro a b hab
+    simp only [cross]
+    constructor
+    · intro h; nlinarith
+    · intro h; nlinarith
+  · intro a b hab
+    simp only [cross]
+    constructor
+    · intro h; nlinarith
+    · intro h; nlinarith
+
+/-! #### the whole method -/
+
+/-- what a successful call consists of: the rectangle, the two interval counts (at least 2, so that every
+border theorem above applies) and the border -/
+theorem chipPolygon_ok (bbox : Option (Rect K)) (step : Option K) (cat : List (K × K)) (p : ChipPoly K)
+    (h : chipPolygon bbox step cat = .ok p) :
+    chipRect bbox cat = .ok p.rect ∧ nint step p.rect.lx p.rect.hx = .ok p.nintx ∧
+    nint step p.rect.ly p.rect.hy = .ok p.ninty ∧ p.pts = chipBorder p.rect p.nintx p.ninty ∧
+    2 ≤ p.nintx ∧ 2 ≤ p.ninty := by
+  unfold chipPolygon at h
+  cases hr : chipRect bbox cat with
+  | error e => rw [hr] at h; cases h
+  | ok r =>
+    rw [hr] at h
+    simp only at h
+    cases hnx : nint step r.lx r.hx with
+    | error e => rw [hnx] at h; cases h
+    | ok nx =>
+      cases hny : nint step r.ly r.hy with
+      | error e => rw [hnx, hny] at h; cases h
+      | ok ny =>
+        rw [hnx, hny] at h
+        injection h with h
+        subst h
+        exact ⟨rfl, hnx, hny, rfl, (nint_spec step _ _ nx hnx).1, (nint_spec step _ _ ny hny).1⟩
+
+/-- the method fails exactly for an empty catalog without bounding box and for a zero `stepsize` -/
+theorem chipPolygon_error (bbox : Option (Rect K)) (step : Option K) (cat : List (K × K)) :
+    (∃ e, chipPolygon bbox step cat = .error e) ↔ ((bbox = none ∧ cat = []) ∨ step = some 0) := by
+  unfold chipPolygon
+  cases hr : chipRect bbox cat with
+  | error e =>
+    have := (chip_rect_error bbox cat e).mp hr
+    simp only
+    exact ⟨fun _ => Or.inl ⟨this.1, this.2.1⟩, fun _ => ⟨e, rfl⟩⟩
+  | ok r =>
+    have hnot : ¬ (bbox = none ∧ cat = []) := by
+      rintro ⟨rfl, rfl⟩
+      have : chipRect (K := K) none [] = .error .emptyCatalog := rfl
+      rw [this] at hr; cases hr
+    simp only
+    cases hnx : nint step r.lx r.hx with
+    | error e =>
+      have := (nint_error step _ _ e).mp hnx
+      exact ⟨fun _ => Or.inr this.1, fun _ => ⟨e, rfl⟩⟩
+    | ok nx =>
+      cases hny : nint step r.ly r.hy with
+      | error e =>
+        have := (nint_error step _ _ e).mp hny
+        exact ⟨fun _ => Or.inr this.1, fun _ => ⟨e, rfl⟩⟩
+      | ok ny =>
+        constructor
+        · rintro ⟨e, h⟩; cases h
+        · rintro (h | h)
+          · exact absurd h hnot
+          · have := (nint_error step r.lx r.hx .zeroStep).mpr ⟨h, rfl⟩
+            rw [hnx] at this; cases this
+
+/-- **the footprint contains its sources** (pixel plane, no bounding box): every source with coordinates
+`≥ -1/2` is in the region bounded by the border polygon handed to `det_to_world`, strictly below the
+upper edges — for every non-empty catalog and every `stepsize` -/
+theorem chip_polygon_contains_sources (step : Option K) (cat : List (K × K)) (p : ChipPoly K)
+    (h : chipPolygon none step cat = .ok p) :
+    ∀ s ∈ cat, -(1 / 2) ≤ s.1 → -(1 / 2) ≤ s.2 →
+      AllLeft s p.pts ∧ s.1 < p.rect.hx ∧ s.2 < p.rect.hy := by
+  intro s hs h1 h2
+  obtain ⟨hr, _, _, hpts, hnx, _⟩ := chipPolygon_ok none step cat p h
+  obtain ⟨c1, c2, c3, c4⟩ := chip_nobb_contains cat p.rect hr s hs h1 h2
+  obtain ⟨r', hr', elx, ely, hlt, _⟩ := chip_nobb_rect cat (List.ne_nil_of_mem hs)
+  rw [hr] at hr'
+  injection hr' with hr'
+  have hxlt : p.rect.lx < p.rect.hx := lt_of_le_of_lt c1 c2
+  have hylt : p.rect.ly < p.rect.hy := lt_of_le_of_lt c3 c4
+  refine ⟨?_, c2, c4⟩
+  rw [hpts, border_region p.rect p.nintx p.ninty (by omega) hxlt hylt]
+  exact ⟨c1, le_of_lt c2, c3, le_of_lt c4⟩
+
+end chip
+
+/-! #### non-vacuity and counterexamples (exact rational arithmetic, the model's own `floor` on `ℚ`) -/
+
+-- (a) two sources, non-integer coordinates: `[-1/2, 15/2] × [-1/2, 7/2]`
+example : chipRect (K := ℚ) none [(7/2, 1), (36/5, 5/2)] = .ok ⟨-1/2, 15/2, -1/2, 7/2⟩ := by decide +kernel
+-- the boundary of the floor: `x = k + 1/2` belongs to pixel `k + 1`
+example : chipRect (K := ℚ) none [(1/2, 3/2)] = .ok ⟨-1/2, 3/2, -1/2, 5/2⟩ := by decide +kernel
+example : chipRect (K := ℚ) none [(0, 0)] = .ok ⟨-1/2, 1/2, -1/2, 1/2⟩ := by decide +kernel
+-- the excluded inputs really fail: a source at `(-3, -7)` gives `[-1/2, 1/2]²`, which does not contain it
+example : chipRect (K := ℚ) none [(-3, -7)] = .ok ⟨-1/2, 1/2, -1/2, 1/2⟩ ∧ ¬ ((-1/2 : ℚ) ≤ -3) := by
+  decide +kernel
+example : chipRect (K := ℚ) none [] = .error .emptyCatalog := by decide +kernel
+-- (b) a 100 × 50 image; a 1 × 1 image degenerates to the point `(0, 0)`
+example : chipRect (K := ℚ) (some ⟨-1/2, 199/2, -1/2, 99/2⟩) [] = .ok ⟨0, 99, 0, 49⟩ := by decide +kernel
+example : chipRect (K := ℚ) (some ⟨-1/2, 1/2, -1/2, 1/2⟩) [(0, 0)] = .ok ⟨0, 0, 0, 0⟩ := by decide +kernel
+-- the outer half-pixel band (`chip_bb_outer_band`): `x = 1023 + 3/10` is in the 1024-pixel box, not in the rectangle
+example : (1023 + 3/10 : ℚ) < 2047/2 ∧ (2047/2 - 1/2 : ℚ) < 1023 + 3/10 := by decide +kernel
+-- (d) interval counts: none → 3; 99/(5/2) = 39.6 → 40; a huge step → 2; a negative step → 2; zero → error
+example : nint (K := ℚ) none 0 99 = .ok 3 := by decide +kernel
+example : nint (K := ℚ) (some (5/2)) 0 99 = .ok 40 := by decide +kernel
+example : nint (K := ℚ) (some 33) 0 99 = .ok 3 := by decide +kernel
+example : nint (K := ℚ) (some 1000) 0 99 = .ok 2 := by decide +kernel
+example : nint (K := ℚ) (some (-1)) 0 99 = .ok 2 := by decide +kernel
+example : nint (K := ℚ) (some 0) 0 99 = .error .zeroStep := by decide +kernel
+-- (e) linspace
+example : linspace (K := ℚ) (-1/2) (15/2) 3 = [-1/2, 13/6, 29/6, 15/2] := by decide +kernel
+example : linspace (K := ℚ) 2 2 3 = [2, 2, 2, 2] := by decide +kernel
+-- (c) the border of `[0, 3] × [0, 2]` with 3 and 2 intervals: 2·4 + 2·1 + 1 = 11 points, counter-clockwise
+example : chipBorder (K := ℚ) ⟨0, 3, 0, 2⟩ 3 2 =
+    [(0,0),(1,0),(2,0),(3,0),(3,1),(3,2),(2,2),(1,2),(0,2),(0,1),(0,0)] := by decide +kernel
+example : shoelace2 (chipBorder (K := ℚ) ⟨0, 3, 0, 2⟩ 3 2) = 12 := by decide +kernel
+-- the whole method: two sources without bounding box, `stepsize = 4`
+example : (chipPolygon (K := ℚ) none (some 4) [(7/2, 1), (36/5, 5/2)]).toOption.map (fun p => (p.nintx, p.ninty, p.pts)) =
+    some (2, 2, [(-1/2,-1/2),(7/2,-1/2),(15/2,-1/2),(15/2,3/2),(15/2,7/2),(7/2,7/2),(-1/2,7/2),(-1/2,3/2),(-1/2,-1/2)]) := by
+  decide +kernel
 
 end TW.C16
